@@ -114,4 +114,11 @@ func init() {
 		NotDecided: "the walk itself against LLVM (stepping through arrays, vectors and struct fields is one shared function with no sibling to cross-check); agreement of the element classification inside constant index vectors for forms that cannot change the result type.",
 		Rules:      []RuleUse{{Rule: "GEP-WALK"}, {Rule: "GEP-VLEN"}, {Rule: "GEP-SIB"}, {Rule: "TYP-1", Filter: tag("gep"), Floor: 2}, {Rule: "EXH", Filter: tag("gep"), Floor: 50}, {Rule: "ERR", Filter: tag("gep"), Floor: 2}},
 	})
+	addProperty(&Property{
+		ID:         "C08",
+		Title:      "Unnamed values are numbered exactly as LLVM numbers them",
+		Decided:    "the printer's numbering traversal and the parser's indexing traversal have the same nest, filters and asserted interface (NUM-SHAPE); a type is numbered exactly when it prints a `<ident> = ` prefix, conditional on non-void exactly for call-like types and with the numbering's own skip predicate (NUM-PREFIX); numbering stores only the position counter, starting at 0 and advancing once per unnamed entity, so renumbering an already numbered function changes nothing (NUM-REDERIVE, RACE-2 guard); one numbering authority per ID space (NUM-AUTH); call-like result types are known before numbering (RACE-3).",
+		NotDecided: "the arithmetic of the counters as such; agreement with LLVM's own numbering beyond the traversal order LLVM documents.",
+		Rules:      []RuleUse{{Rule: "NUM-SHAPE"}, {Rule: "NUM-PREFIX"}, {Rule: "NUM-REDERIVE"}, {Rule: "NUM-AUTH"}, {Rule: "RACE-2"}, {Rule: "RACE-3"}},
+	})
 }
